@@ -44,6 +44,14 @@ type Deviations struct {
 	// UndirectedSkipsSelfLoops: an undirected fixed-length step never matches a self-loop relationship (the emitted
 	// SQL carries `n0.id <> n1.id`).
 	UndirectedSkipsSelfLoops bool
+	// ExpansionStopsAfterInitialSelfLoop: a variable-length path whose first relationship is a self loop is never
+	// extended (the recursive CTE's primer marks it is_cycle and the recursion skips cycles).
+	ExpansionStopsAfterInitialSelfLoop bool
+	// SumOfNoRowsIsNull: sum() over no (non-null) values yields null instead of 0 (PostgreSQL's sum).
+	SumOfNoRowsIsNull bool
+	// OrderingCoercesProperty: in <, <=, >, >= a property operand is read as text (jsonb ->>) and cast to the type of
+	// the other operand, so a numeric-looking string compares as a number and a number compares as its text.
+	OrderingCoercesProperty bool
 }
 
 func New(g *gm.Graph, params map[string]any) *Evaluator {
@@ -343,7 +351,20 @@ func (e *Evaluator) comparison(c *cypher.Comparison, env Env) (any, error) {
 		if err != nil {
 			return nil, err
 		}
-		r, err := e.compareOp(p.Operator, left, right)
+		l2, r2 := left, right
+		if e.Dev.OrderingCoercesProperty {
+			switch p.Operator {
+			case cypher.OperatorLessThan, cypher.OperatorLessThanOrEqualTo, cypher.OperatorGreaterThan, cypher.OperatorGreaterThanOrEqualTo:
+				lx := cypher.Expression(c.Left)
+				if i > 0 {
+					lx = c.Partials[i-1].Right
+				}
+				if l2, r2, err = coerceOrdering(lx, p.Right, left, right); err != nil {
+					return nil, err
+				}
+			}
+		}
+		r, err := e.compareOp(p.Operator, l2, r2)
 		if err != nil {
 			return nil, err
 		}
@@ -355,6 +376,55 @@ func (e *Evaluator) comparison(c *cypher.Comparison, env Env) (any, error) {
 		left = right
 	}
 	return acc.value(), nil
+}
+
+// coerceOrdering models `(props ->> 'k')::T op literal`: the property side is read as text and cast to the other
+// side's type; a failing cast is a run-time error.
+func coerceOrdering(lx, rx cypher.Expression, l, r any) (any, any, error) {
+	_, lProp := lx.(*cypher.PropertyLookup)
+	_, rProp := rx.(*cypher.PropertyLookup)
+	coerce := func(prop, other any) (any, error) {
+		if prop == nil || other == nil {
+			return prop, nil
+		}
+		text := ""
+		switch t := prop.(type) {
+		case string:
+			text = t
+		case int64:
+			text = strconv.FormatInt(t, 10)
+		case float64:
+			text = strconv.FormatFloat(t, 'g', -1, 64)
+		case bool:
+			text = strconv.FormatBool(t)
+		default:
+			return nil, ErrRuntime{"cast of a container to a scalar"}
+		}
+		switch other.(type) {
+		case int64:
+			i, err := strconv.ParseInt(strings.TrimSpace(text), 10, 64)
+			if err != nil {
+				return nil, ErrRuntime{"invalid input syntax for type bigint"}
+			}
+			return i, nil
+		case float64:
+			f, err := strconv.ParseFloat(strings.TrimSpace(text), 64)
+			if err != nil {
+				return nil, ErrRuntime{"invalid input syntax for type double precision"}
+			}
+			return f, nil
+		case string:
+			return text, nil
+		}
+		return prop, nil
+	}
+	var err error
+	if lProp && !rProp {
+		l, err = coerce(l, r)
+	} else if rProp && !lProp {
+		r, err = coerce(r, l)
+	}
+	return l, r, err
 }
 
 func (e *Evaluator) compareOp(op cypher.Operator, l, r any) (tri, error) {
@@ -916,6 +986,9 @@ func (e *Evaluator) aggregate(name string, f *cypher.FunctionInvocation) (any, e
 		}
 		return vals, nil
 	case "sum":
+		if len(vals) == 0 && e.Dev.SumOfNoRowsIsNull {
+			return nil, nil
+		}
 		var si int64
 		var sf float64
 		isFloat := false
